@@ -19,6 +19,7 @@ package ipinfo
 //@   ensures[C20,non-global-XL] ip2info != nil && ip != nil && !ip_is_global_unicast(ip) ==> result.0.CountryCode == "XL"
 //@   trace[C20,no-lookup-unless-global] never ipinfo.IPInfoMap.GetIPInfo when ip2info == nil || ip == nil || !ip_is_global_unicast(ip)
 //@   trace[C20,one-lookup-when-global] exactly 1 ipinfo.IPInfoMap.GetIPInfo when ip2info != nil && ip != nil && ip_is_global_unicast(ip)
+//@   trace[C20,the-database-is-asked-about-this-address] each ipinfo.IPInfoMap.GetIPInfo satisfies $recv == ip2info && sameslice($arg0, ip)
 //@   trace[C20,db-error-XD] each ipinfo.IPInfoMap.GetIPInfo satisfies $res1 != nil ==> result.0.CountryCode == "XD"
 //@   trace[C20,db-miss-ZZ] each ipinfo.IPInfoMap.GetIPInfo satisfies $res1 == nil && $res0.CountryCode == "" ==> result.0.CountryCode == "ZZ"
 //@   trace[C20,db-answer] each ipinfo.IPInfoMap.GetIPInfo satisfies $res1 == nil && $res0.CountryCode != "" ==> result.0.CountryCode == $res0.CountryCode && result.0.ASN.Number == $res0.ASN.Number
